@@ -121,9 +121,14 @@ def main(argv):
             wit = wit.get("case", wit)
         try:
             fails = mod.replay(wit)
-        except Exception:
-            print("HARNESS-ERROR replaying", e["id"], traceback.format_exc())
-            return 2
+        except Exception as exc:
+            tb = traceback.extract_tb(exc.__traceback__)
+            if tb and os.path.realpath(tb[-1].filename).startswith(os.path.realpath(core.REPO) + os.sep):
+                # the code under test crashed on a regression input: that is a finding about the repository, not about the harness
+                fails = [("raised", f"{type(exc).__name__}: {exc} at {tb[-1].filename}:{tb[-1].lineno}")]
+            else:
+                print("HARNESS-ERROR replaying", e["id"], traceback.format_exc())
+                return 2
         known_replayed.append({"id": e["id"], "status": e["status"], "still_fails": bool(fails)})
         if fails and e["status"] == "known":
             known_lines.append(f"KNOWN-FINDING: property={prop} {e['id']}: {e['what']}")
